@@ -259,10 +259,78 @@ func snapExec(ops []string) []string {
 	return outs
 }
 
+// snapBurstLeave: lives through the REAL goroutines in which Leave() is called while the
+// snapshotter is busy with a backlog and shutdown follows at once:
+//   NewSnapshotter (rejoin-after-leave off), two joins + a burst of user events sent without
+//   waiting, Leave(), close(shutdownCh), Wait(), restart with the real NewSnapshotter.
+// Leave() returns only once stream() has taken the request, so on every attempt the leave
+// is recorded and the restart re-joins nobody. Output: the distinct recovered rejoin sets.
+func snapBurstLeave(attempts, burst, mc int) string {
+	seen := map[string]bool{}
+	for a := 0; a < attempts; a++ {
+		dir, err := os.MkdirTemp("", "verif-snap-burst-")
+		if err != nil {
+			return "error-tmp"
+		}
+		path := filepath.Join(dir, "snap")
+		clock := snapClock(1)
+		outCh := make(chan serf.Event, 8192)
+		shutdownCh := make(chan struct{})
+		in, s, err := serf.NewSnapshotter(path, mc, false, snapLogger, clock, outCh, shutdownCh)
+		if err != nil {
+			os.RemoveAll(dir)
+			return "error-open"
+		}
+		in <- serf.MemberEvent{Type: serf.EventMemberJoin, Members: []serf.Member{{Name: "node-a", Addr: net.IPv4(127, 0, 0, 1).To4(), Port: 7946}}}
+		in <- serf.MemberEvent{Type: serf.EventMemberJoin, Members: []serf.Member{{Name: "node-b", Addr: net.IPv4(127, 0, 0, 2).To4(), Port: 7946}}}
+		for i := 0; i < burst; i++ {
+			in <- serf.UserEvent{LTime: serf.LamportTime(i + 1), Name: "n", Payload: []byte("p")}
+			select {
+			case <-outCh:
+			default:
+			}
+		}
+		s.Leave()
+		close(shutdownCh)
+		s.Wait()
+		r := &snapRun{path: path}
+		p, err := r.probe(false, mc)
+		os.RemoveAll(dir)
+		if err != nil {
+			return "error-probe"
+		}
+		al := "?"
+		for _, x := range strings.Fields(p) {
+			if strings.HasPrefix(x, "alive=") {
+				al = x[6:]
+			}
+		}
+		seen[al] = true
+	}
+	var keys []string
+	for k := range seen {
+		keys = append(keys, k)
+	}
+	sort.Strings(keys)
+	return fmt.Sprintf("ok n=%d recovered=%s", attempts, strings.Join(keys, "/"))
+}
+
 func snapExecOp(rp **snapRun, f []string) string {
 	r := *rp
 	if len(f) == 0 {
 		return "bad-op"
+	}
+	if f[0] == "burstleave" {
+		if len(f) != 4 {
+			return "bad-op"
+		}
+		a, e1 := strconv.Atoi(f[1])
+		b, e2 := strconv.Atoi(f[2])
+		mc, e3 := strconv.Atoi(f[3])
+		if e1 != nil || e2 != nil || e3 != nil || a < 1 || a > 1000 || b < 0 || b > 2000 {
+			return "bad-op"
+		}
+		return snapBurstLeave(a, b, mc)
 	}
 	if f[0] == "new" {
 		if len(f) < 4 || len(f) > 5 {
